@@ -1182,14 +1182,27 @@ func ruleP05Exit(p *Prog, r *Report) {
 			if a, ok := in.(*ssa.Alloc); ok && appErr != nil && types.Identical(a.Type().Underlying().(*types.Pointer).Elem(), appErr) {
 				if !sameFn(f, nwc) {
 					// a local of type AppError that is only a target for errors.As is fine: no field store
+					// a literal elsewhere is as good if its code field is given a constant code >= 1
+					// or a parameter (forwarded); a literal WITHOUT a code (exit status 0) is not
+					hasStore, codeOK := false, false
 					for _, ref := range *a.Referrers() {
 						if fa, ok := ref.(*ssa.FieldAddr); ok {
 							for _, r2 := range *fa.Referrers() {
-								if _, isStore := r2.(*ssa.Store); isStore {
-									r.bad(rule, "AppError-literal:"+fnName(f), p.instrPos(in), "AppError constructed outside NewErrorWithCode")
+								if st, isStore := r2.(*ssa.Store); isStore {
+									hasStore = true
+									if fieldName(fa) == "code" {
+										if k, isK := constInt(st.Val); isK && k >= 1 {
+											codeOK = true
+										} else if _, isPrm := strip(st.Val).(*ssa.Parameter); isPrm {
+											codeOK = true
+										}
+									}
 								}
 							}
 						}
+					}
+					if hasStore && !codeOK {
+						r.bad(rule, "AppError-literal:"+fnName(f), p.instrPos(in), "AppError constructed outside NewErrorWithCode without a non-zero code")
 					}
 				}
 			}
